@@ -341,7 +341,7 @@ PLAN = [  # (device, number of shards, case-count multiplier)
 
 
 def shards(tier, seed):
-    per = 120 if tier == "quick" else 3000
+    per = 80 if tier == "quick" else 3000
     out = []
     for dev, n, mult in PLAN:
         for k in range(n):
